@@ -201,8 +201,8 @@ def stmtReasons (env : Env) : Stmt → List String
 
 /-- Priority of the classes: the three listed by the `interp` workload first. -/
 def classPriority : List String :=
-  ["kept", "save-expression", "negative-cap", "world-variable", "asset-mismatch", "octal-portion",
-   "portion-variable", "save", "allotment", "print", "fail", "ill-typed"]
+  ["kept", "save-expression", "save", "negative-cap", "world-variable", "asset-mismatch", "octal-portion",
+   "portion-variable", "allotment", "print", "fail", "ill-typed"]
 
 def hasBoundedOverdraft (s : Script) : Bool := (scriptTags s).contains "overdraft-upto"
 def hasSave (s : Script) : Bool := (scriptTags s).contains "save" || (scriptTags s).contains "save-all"
@@ -212,6 +212,75 @@ def balanceWorld (s : Script) : Bool :=
   s.vars.any fun d => match d.orig with
     | .balance (.acct a) _ => a = "world"
     | _ => false
+
+/-! ## Asset literals the interpreter's lexer reads differently
+
+The machine's ASSET token is `[A-Z/0-9]+`; the compiler then rejects the literals
+outside the asset pattern.  The interpreter's lexer (`[A-Z][A-Z0-9]*('/'[0-9]+)?`) splits
+such a text into other tokens, so the AST is not the interpreter's reading of the text:
+no claim about the interpreter model is made for these programs. -/
+
+def exprAssetsOK : Expr → Bool
+  | .asset s => validAsset s
+  | .mon a _ => exprAssetsOK a
+  | .add l r => exprAssetsOK l && exprAssetsOK r
+  | .sub l r => exprAssetsOK l && exprAssetsOK r
+  | _ => true
+
+def odAssetsOK : Overdraft → Bool
+  | .upTo x => exprAssetsOK x
+  | _ => true
+
+mutual
+  def srcAssetsOK : Source → Bool
+    | .account e od => exprAssetsOK e && odAssetsOK od
+    | .maxed m s => exprAssetsOK m && srcAssetsOK s
+    | .inorder ss => srcsAssetsOK ss
+  def srcsAssetsOK : SourceList → Bool
+    | .nil => true
+    | .cons s ss => srcAssetsOK s && srcsAssetsOK ss
+end
+
+def allotSrcAssetsOK : AllotSrcList → Bool
+  | .nil => true
+  | .cons _ s r => srcAssetsOK s && allotSrcAssetsOK r
+
+mutual
+  def dstAssetsOK : Dest → Bool
+    | .account e => exprAssetsOK e
+    | .inorder items rem => inOrderAssetsOK items && kdAssetsOK rem
+    | .allot items => allotDstAssetsOK items
+  def kdAssetsOK : KeptOrDest → Bool
+    | .kept => true
+    | .to d => dstAssetsOK d
+  def inOrderAssetsOK : InOrderDstList → Bool
+    | .nil => true
+    | .cons m d r => exprAssetsOK m && kdAssetsOK d && inOrderAssetsOK r
+  def allotDstAssetsOK : AllotDstList → Bool
+    | .nil => true
+    | .cons _ d r => kdAssetsOK d && allotDstAssetsOK r
+end
+
+def vsrcAssetsOK : VSource → Bool
+  | .src s => srcAssetsOK s
+  | .allot items => allotSrcAssetsOK items
+
+def stmtAssetsOK : Stmt → Bool
+  | .print e => exprAssetsOK e
+  | .save m a => exprAssetsOK m && exprAssetsOK a
+  | .saveAll m a => exprAssetsOK m && exprAssetsOK a
+  | .setTxMeta _ e => exprAssetsOK e
+  | .setAccountMeta a _ e => exprAssetsOK a && exprAssetsOK e
+  | .fail => true
+  | .send m src dst => exprAssetsOK m && vsrcAssetsOK src && dstAssetsOK dst
+  | .sendAll m src dst => exprAssetsOK m && vsrcAssetsOK src && dstAssetsOK dst
+
+def scriptAssetsOK (s : Script) : Bool :=
+  s.stmts.all stmtAssetsOK &&
+  s.vars.all fun d => match d.orig with
+    | .none => true
+    | .accountMeta a _ => exprAssetsOK a
+    | .balance a c => exprAssetsOK a && exprAssetsOK c
 
 /-! ## The handler -/
 
@@ -239,6 +308,7 @@ def handleInterp (checkProp : Bool) : Handler := fun inp out => do
   -- model = implementation?
   let iKind := match iModel with | .ok _ => "" | .error k => k
   let agreeI :=
+    !scriptAssetsOK script ||
     !rIR.crash && rIM.ok = rIR.ok &&
     (if rIM.ok then rIM.postings = rIR.postings && rIM.txMeta == rIR.txMeta && rIM.accMeta == rIR.accMeta
      else (iKind = ireal.err || !compiles))
